@@ -11,7 +11,8 @@ res = {}
 for sid in ids:
     d = f"/verif/benign/{sid}"
     meta = json.load(open(f"{d}/meta.json"))
-    a = subprocess.run(f"git -C {REPO} apply {d}/patch.diff", shell=True, capture_output=True, text=True)
+    pf = f"{d}/patch_rebased.diff" if os.path.exists(f"{d}/patch_rebased.diff") else f"{d}/patch.diff"     # rebased after a later fix: commit
+    a = subprocess.run(f"git -C {REPO} apply {pf}", shell=True, capture_output=True, text=True)
     if a.returncode:
         print(sid, "patch does not apply", a.stderr[-200:]); continue
     try:
